@@ -63,6 +63,16 @@ fn is_constant(array: &dyn Array) -> bool {
         return true;
     }
 
+    // NULL is a value of its own: an array is constant when every element is
+    // NULL, or when none is and all values are equal. (Comparing the raw
+    // value buffer called [NULL, 0] constant and decoded it as [0, 0].)
+    if array.null_count() == array.len() {
+        return true;
+    }
+    if array.null_count() > 0 {
+        return false;
+    }
+
     // For primitive arrays
     if let Some(primitive) = array.as_any().downcast_ref::<Int64Array>() {
         if !primitive.is_empty() {
@@ -143,19 +153,23 @@ fn array_value_to_string(array: &dyn Array, index: usize) -> String {
 pub fn encode_optimal(array: ArrayRef) -> Result<EncodedArray> {
     let encoding = analyze_encoding(array.as_ref());
 
+    // An encoder that cannot represent this array's type declines; the array
+    // then stays flat instead of failing the caller.
     match encoding {
-        VectorEncoding::Constant => {
-            let constant_array = encode_constant(array)?;
-            Ok(EncodedArray::Constant(constant_array))
-        }
-        VectorEncoding::Dictionary => {
-            let dict_array = encode_dictionary(array)?;
-            Ok(EncodedArray::Dictionary(dict_array))
-        }
-        VectorEncoding::RunLengthEncoded => {
-            let rle_array = encode_rle(array)?;
-            Ok(EncodedArray::RunLengthEncoded(rle_array))
-        }
+        VectorEncoding::Constant => match encode_constant(array.clone()) {
+            Ok(constant_array) if constant_array.data_type() == array.data_type() => {
+                Ok(EncodedArray::Constant(constant_array))
+            }
+            _ => Ok(EncodedArray::Flat(array)),
+        },
+        VectorEncoding::Dictionary => match encode_dictionary(array.clone()) {
+            Ok(dict_array) => Ok(EncodedArray::Dictionary(dict_array)),
+            Err(_) => Ok(EncodedArray::Flat(array)),
+        },
+        VectorEncoding::RunLengthEncoded => match encode_rle(array.clone()) {
+            Ok(rle_array) => Ok(EncodedArray::RunLengthEncoded(rle_array)),
+            Err(_) => Ok(EncodedArray::Flat(array)),
+        },
         _ => Ok(EncodedArray::Flat(array)),
     }
 }
@@ -248,14 +262,11 @@ impl ConstantArray {
                 let values: Vec<Option<&str>> = vec![Some(v.as_str()); self.len];
                 Arc::new(StringArray::from(values))
             }
+            ScalarValue::Boolean(Some(v)) => Arc::new(BooleanArray::from(vec![*v; self.len])),
             _ => {
-                // Fallback: create array with default values
-                match data_type {
-                    DataType::Int64 => Arc::new(Int64Array::from(vec![0i64; self.len])),
-                    DataType::Float64 => Arc::new(Float64Array::from(vec![0.0f64; self.len])),
-                    DataType::Utf8 => Arc::new(StringArray::from(vec![String::new(); self.len])),
-                    _ => panic!("Unsupported data type for constant array: {:?}", data_type),
-                }
+                // A NULL constant (or a value this type cannot carry): every
+                // element is NULL, in the array's own type.
+                new_null_array(data_type, self.len)
             }
         }
     }
